@@ -23,7 +23,9 @@ class BaseParser(ABC):
         pass
 
     def find_file_locations(self) -> List[Path]:
-        return list(Path(self.parent_directory).rglob(self.file_type.value))
+        # rglob order is file-system dependent: sort so that the same manifest is
+        # chosen for a given project every time
+        return sorted(Path(self.parent_directory).rglob(self.file_type.value))
 
     def parse(self) -> list[PackageStore]:
         """
